@@ -178,7 +178,7 @@ theorem forget_leaks_never_drops (s : St K V Q) :
 /-- **Every object is in exactly one place, over any history.**  For any sequence of the owning
     operations `insert`, `insert_key_value`, `checked_insert`, `remove`, `remove_entry`, `clear`,
     `drain` (partially consumed, then dropped) and lookups, from `new()` of any capacity, in a benign
-    world with a time-independent `==` and a value type with drop glue: the history runs without
+    world, for ANY user equality (lawful or not) and a value type with drop glue: the history runs without
     `ub`, and for EVERY weighting `w` of objects
 
         Σ w(objects passed in) = Σ w(objects stored at the end) + Σ w(objects handed back) + Σ w(objects dropped)
@@ -187,17 +187,24 @@ theorem forget_leaks_never_drops (s : St K V Q) :
     of one object: an object passed in once is, at the end, in exactly one of the three places
     and was destroyed at most once; nothing is ever destroyed that was not passed in.
     (Steps that end in the overflow panic are included: there both arguments are dropped.) -/
-theorem history_ledger (hE : E.Pure) (hv : E.vGlue = true) (cap : Nat) (w0 : World K V Q) (hb : Benign w0)
+theorem history_ledger (hv : E.vGlue = true) (cap : Nat) (w0 : World K V Q) (hb : Benign w0)
     (ops : List (Ledger.LOp K V Q)) (w : Obj K V → Nat) :
     ∃ sf back tr lf, Ledger.lmhist E ops ⟨Raw.new cap, w0⟩ = some (sf, back) ∧ Rep sf.r lf ∧
       WRel w0 sf.w tr ∧
       Ledger.wsum w (ops.flatMap Ledger.LOp.inObjs) =
         Ledger.wpairs w lf + Ledger.wsum w back + Ledger.wsum w (Ledger.droppedOf tr) := by
+  obtain ⟨sf, back, tr, lf, h1, h2, _, h4, h5⟩ :=
+    Ledger.lmhist_conserves E hv w ops ⟨Raw.new cap, w0⟩ [] (Rep.new cap) hb
+  exact ⟨sf, back, tr, lf, h1, h2, h4, by simpa using h5⟩
+
+/-- with a time-independent `==` the history is moreover the list-level one (`Ledger.lhist`):
+    which object ends up where is determined. -/
+theorem history_ledger_exact (hE : E.Pure) (cap : Nat) (w0 : World K V Q) (hb : Benign w0)
+    (ops : List (Ledger.LOp K V Q)) :
+    ∃ sf, Ledger.lmhist E ops ⟨Raw.new cap, w0⟩ = some (sf, (Ledger.lhist E cap ops []).2.2.1) ∧
+      Rep sf.r (Ledger.lhist E cap ops []).1 ∧ WRel w0 sf.w (Ledger.lhist E cap ops []).2.2.2 := by
   obtain ⟨sf, h1, h2, _, h4⟩ := Ledger.lmhist_refines E hE ops ⟨Raw.new cap, w0⟩ [] (Rep.new cap) hb
-  refine ⟨sf, _, _, _, h1, h2, h4, ?_⟩
-  have := Ledger.lhist_conserves E hv w (Raw.new cap : Raw K V).cap ops []
-  rw [Ledger.lhist_in] at this
-  simpa using this
+  exact ⟨sf, h1, h2, h4⟩
 
 /-- the step-level fact behind it (list level, any list): stored + passed in = stored' + handed
     back + dropped, for each owning operation. -/
